@@ -266,6 +266,28 @@ def case_split_file(c):
                                     break
                                 if not _check_piece_frame(fr, h2, p2, 0, fchans, T, V, 'split_fil', 'piece %d' % i):
                                     break
+                            # history: the same output directory already holds the pieces of an EARLIER split with more
+                            # pieces (shift 1); this call must still return exactly the files it wrote, piece i = window i
+                            if fchans < nchans:
+                                try:
+                                    with contextlib.redirect_stdout(io.StringIO()):
+                                        kw1 = dict(kw); kw1['f_shift'] = 1
+                                        stg.split_fil(path, outdir, fchans, **kw1)
+                                        fns2 = stg.split_fil(path, outdir, fchans, **kw)
+                                    if len(fns2) != len(wins):
+                                        V('split_fil', 'count_after_earlier_split', 'returned %d files into a directory that already held an '
+                                          'earlier split; this split has %d pieces' % (len(fns2), len(wins)))
+                                    else:
+                                        for i, (fn, (a, b)) in enumerate(zip(fns2, wins)):
+                                            h2, p2, _ = S.read_fil(str(fn))
+                                            if p2.shape != (T, fchans) or not np.array_equal(p2, pay[:T, a:b]):
+                                                V('split_fil', 'piece_after_earlier_split', 'returned file %d is not window [%d, %d) of THIS split '
+                                                  '(directory also holds an earlier split)' % (i, a, b))
+                                                break
+                                except (S.FormatError, OSError) as e:
+                                    V('split_fil', 'malformed_file', 'after an earlier split: %s' % e)
+                                except Exception as e:
+                                    V('split_fil', 'raised', 'after an earlier split: %s: %s' % (type(e).__name__, e))
                         shutil.rmtree(outdir, ignore_errors=True)
     finally:
         try:
